@@ -13,6 +13,7 @@ use crate::authoring::*;
 fn fwd(op: &Op, _ctx: &dyn Context, operands: &mut dyn CoordinateSet) -> usize {
     let grids = &op.params.grids;
     let ellps = op.params.ellps(0);
+    let use_null_grid = op.params.boolean("null_grid");
 
     let mut successes = 0_usize;
     let n = operands.len();
@@ -36,19 +37,19 @@ fn fwd(op: &Op, _ctx: &dyn Context, operands: &mut dyn CoordinateSet) -> usize {
         // The longitude step corresponding to a 1 m linear step along the local parallel
         let dlon = (lat.cos() * ellps.prime_vertical_radius_of_curvature(lat)).recip();
 
-        let Some(origin) = grids_at(grids, &coord, false) else {
+        let Some(origin) = grids_at(grids, &coord, use_null_grid) else {
             operands.set_coord(i, &Coor4D::nan());
             continue;
         };
 
         coord[1] += dlat;
-        let Some(lat_1) = grids_at(grids, &coord, false) else {
+        let Some(lat_1) = grids_at(grids, &coord, use_null_grid) else {
             operands.set_coord(i, &Coor4D::nan());
             continue;
         };
         coord[1] = lat;
         coord[0] += dlon;
-        let Some(lon_1) = grids_at(grids, &coord, false) else {
+        let Some(lon_1) = grids_at(grids, &coord, use_null_grid) else {
             operands.set_coord(i, &Coor4D::nan());
             continue;
         };
